@@ -10,6 +10,10 @@
     Errors are the crate's variants (Invalid / NotImplemented); the only place
     where Rust can panic is [Document::root_element] (an [expect]).
 
+    State of the crate mirrored: with the repairs of the three C18 findings - [xml::is_tag]
+    (namespace-aware element lookups), [xml::text] (all text children), e57Root = the root
+    element, data3D / images2D / limit values looked up among children only.
+
     Integers ([str::parse] for i64 / u64 / u32) are modelled exactly.  Floats
     ([str::parse] for f64 / f32) are an ORACLE: the section variables
     [parse_f64] / [parse_f32] map a text to the bit pattern of the result or to
@@ -112,20 +116,51 @@ Definition ZERO_TEXT : xstr := B"0".
 Definition attr_is (a v : xstr) (n : xnode) : bool :=
   match attribute a n with Some x => xstr_eqb x v | None => false end.
 
-(** [parent.children().find(|n| n.has_tag_name(name))] *)
+(** xml.rs: [const E57_NAMESPACE] *)
+Definition E57_NAMESPACE : xstr := B"http://www.astm.org/COMMIT/E57/2010-e57-v1.0".
+Definition is_empty (s : xstr) : bool := match s with [] => true | _ => false end.
+
+(** [xml::is_tag(node, name)]: the local name matches and the element has no namespace or the
+    E57 namespace; elements of other namespaces are never standard elements *)
+Definition std_ns (n : xnode) : bool :=
+  match n with
+  | XElem nm _ _ _ => match xn_ns nm with
+                      | Some u => is_empty u || xstr_eqb u E57_NAMESPACE
+                      | None => true
+                      end
+  | _ => false
+  end.
+Definition is_tag (name : xstr) (n : xnode) : bool := has_tag_name name n && std_ns n.
+
+(** [xml::text(node)]: all direct text children concatenated in document order, [None] when
+    there is no text child *)
+Fixpoint cat_texts (l : list xnode) : xstr :=
+  match l with
+  | [] => []
+  | XText t :: r => t ++ cat_texts r
+  | _ :: r => cat_texts r
+  end.
+Definition is_text_node (n : xnode) : bool := match n with XText _ => true | _ => false end.
+Definition elem_text (n : xnode) : option xstr :=
+  if existsb is_text_node (children n) then Some (cat_texts (children n)) else None.
+
+(** [parent.children().find(|n| is_tag(n, name))] *)
 Definition find_child (name : xstr) (n : xnode) : option xnode :=
-  find (has_tag_name name) (children n).
-(** [.find(|n| n.has_tag_name(name) && n.attribute("type") == Some(ty))] *)
+  find (is_tag name) (children n).
+(** [.find(|n| is_tag(n, name) && n.attribute("type") == Some(ty))] *)
 Definition find_child_typed (name ty : xstr) (n : xnode) : option xnode :=
-  find (fun c => has_tag_name name c && attr_is TYPE ty c) (children n).
-(** [node.descendants().find(|n| n.has_tag_name(name))] *)
-Definition find_desc (name : xstr) (n : xnode) : option xnode :=
-  find (has_tag_name name) (descendants n).
-Definition find_doc_desc (name : xstr) (d : xdoc) : option xnode :=
-  find (has_tag_name name) (doc_descendants d).
+  find (fun c => is_tag name c && attr_is TYPE ty c) (children n).
+
+(** [Some(document.root_element()).filter(|n| is_tag(n, "e57Root"))]; [root_element] is an
+    [expect]: a document without root element (never produced by the parser) panics *)
+Definition e57_root (d : xdoc) : res (option xnode) :=
+  match root_element d with
+  | Some r => Ok (if is_tag (B"e57Root") r then Some r else None)
+  | None => Panic
+  end.
 
 Definition opt_text (dflt : xstr) (n : xnode) : xstr :=
-  match node_text n with Some t => t | None => dflt end.
+  match elem_text n with Some t => t | None => dflt end.
 
 Definition invalid_err {A} (o : option A) : res A :=
   match o with Some a => Ok a | None => Err EInvalid end.
@@ -196,7 +231,7 @@ Definition req_int (parse : xstr -> option Z) (n : xnode) (name : xstr) : res Z 
 (** * date_time.rs *)
 Definition date_time_from_node (n : xnode) : res (option date_time) :=
   req_node (find_child_typed (B"dateTimeValue") (B"Float") n) (fun v =>
-  match node_text v with
+  match elem_text v with
   | None => Ok None
   | Some text =>
       do gps <- invalid_err (f64_parsed text);
@@ -249,7 +284,7 @@ Definition index_bounds_from_node (n : xnode) : res index_bounds :=
 
 (** * limits.rs *)
 Definition extract_limit (bounds : xnode) (name : xstr) : res (option limit_value) :=
-  opt_bind (find_desc name bounds) (fun tag =>
+  opt_bind (find_child name bounds) (fun tag =>
     do ty <- invalid_err (attribute TYPE tag);
     let value := opt_text ZERO_TEXT tag in
     if xstr_eqb ty (B"Integer") then
@@ -332,9 +367,6 @@ Definition data_type_from_node (n : xnode) : res data_type :=
     Ok (DScaledInteger mn mx (dflt sc (f64_const f64_one_bits)) (dflt off (f64_const 0)))
   else Err ENotImpl.
 
-(** pointcloud.rs: [const E57_NAMESPACE] *)
-Definition E57_NAMESPACE : xstr := B"http://www.astm.org/COMMIT/E57/2010-e57-v1.0".
-Definition is_empty (s : xstr) : bool := match s with [] => true | _ => false end.
 
 (** one iteration of the prototype loop of [PointCloud::from_node] (element children only):
     only elements without namespace or in the E57 namespace can be standard attributes *)
@@ -373,7 +405,7 @@ Definition blob_from_parent_node (name : xstr) (parent : xnode) : res (option bl
 
 (** * pointcloud.rs *)
 Definition is_vector_child (ty : xstr) (n : xnode) : bool :=
-  has_tag_name (B"vectorChild") n && attr_is TYPE ty n.
+  is_tag (B"vectorChild") n && attr_is TYPE ty n.
 
 Definition original_guids_of (n : xnode) : list xstring :=
   map (opt_text []) (filter (fun c => is_element c && is_vector_child (B"String") c) (children n)).
@@ -426,7 +458,8 @@ Definition pointcloud_from_node (n : xnode) : res pointcloud :=
 
 (** [vec_from_document] of pointcloud.rs and images.rs *)
 Definition vec_from_document {A} (tag : xstr) (from_node : xnode -> res A) (d : xdoc) : res (list A) :=
-  opt_case (find_doc_desc tag d)
+  do root <- e57_root d;
+  opt_case (opt_case root (fun r => find_child tag r) None)
     (fun v => map_res from_node (filter (is_vector_child (B"Structure")) (children v)))
     (Ok []).
 
@@ -511,19 +544,13 @@ Definition image_from_node (n : xnode) : res image :=
   Ok (mkImage guid vr projection transform pc_guid name description acquisition
         sensor_vendor sensor_model sensor_serial).
 
-(** images.rs [vec_from_document]: the images2D element is looked for among the CHILDREN of the
-    first element named e57Root (not among all descendants of the document, as data3D is) *)
-Definition images2d_node (d : xdoc) : option xnode :=
-  opt_case (find_doc_desc (B"e57Root") d) (fun r => find_child (B"images2D") r) None.
-
-Definition images_from_document (d : xdoc) : res (list image) :=
-  opt_case (images2d_node d)
-    (fun v => map_res image_from_node (filter (is_vector_child (B"Structure")) (children v)))
-    (Ok []).
+Definition images_from_document : xdoc -> res (list image) :=
+  vec_from_document (B"images2D") image_from_node.
 
 (** * root.rs (versionMajor is read twice, as the code does) *)
 Definition root_from_document (d : xdoc) : res root :=
-  req_node (find_doc_desc (B"e57Root") d) (fun r =>
+  do root <- e57_root d;
+  req_node root (fun r =>
   do format <- req_string r (B"formatName");
   do guid <- req_string r (B"guid");
   do major <- req_int parse_i64 r (B"versionMajor");
